@@ -40,6 +40,12 @@ fn gen_prog(r: &mut Rng) -> Vec<H> {
         "ec = [entries(constants)[0][0], values(constants)[0], to_string(constants)]",
         "spc = keys({...constants, extra: 1})",
         "ki = [keys(inputs), to_string(inputs)]",
+        // aggregates and order statistics over a shared list (anything they remember must die with the heap)
+        "agg = [percentile(sh, 50), percentile(sh, 0), percentile(sh, 100), median(sh), min(sh), max(sh), sum(sh), avg(sh)]",
+        "agg2 = [median([4, 8, 15, 16, 23, 42]), percentile([4, 8, 15, 16, 23, 42], 90), sort([4, 8, 15, 16, 23, 42] via (v => 50 - v))]",
+        // distinct closures of one definition that captured equal values (several captured names each)
+        "mk4 = (p, q, r, s) => x => [p, q, r, s, x]",
+        "ceq = [mk4(1, 2, 3, 4) == mk4(1, 2, 3, 4), mk4(1, 2, 3, 4) .== mk4(1, 2, 3, 4), mk4(1, 2, 3, 4) == mk4(1, 2, 3, 5), includes([mk4(1, 2, 3, 4)], mk4(1, 2, 3, 4)), len(unique([mk4(1, 2, 3, 4), mk4(1, 2, 3, 4), mk4(\"a\", [1], {k: 1}, null), mk4(\"a\", [1], {k: 1}, null)]))]",
     ];
     // spellings whose meaning depends on letter case (kb = kilobits, kB = kilobytes, ...): a
     // process-wide cache keyed on something coarser than the spelling would make results depend on
@@ -74,6 +80,50 @@ fn gen_prog(r: &mut Rng) -> Vec<H> {
         }
     }
     out.append(&mut stmts);
+    out
+}
+
+/// the same text with every unsigned integer literal n replaced by n + 1 (digits inside names, strings and fractions untouched)
+fn perturb_integers(src: &str) -> String {
+    let cs: Vec<char> = src.chars().collect();
+    let mut out = String::new();
+    let mut i = 0;
+    let mut quote: Option<char> = None;
+    while i < cs.len() {
+        let c = cs[i];
+        if let Some(q) = quote {
+            out.push(c);
+            if c == q {
+                quote = None;
+            }
+            i += 1;
+            continue;
+        }
+        if c == '"' || c == '\'' {
+            quote = Some(c);
+            out.push(c);
+            i += 1;
+            continue;
+        }
+        let prev = if i > 0 { cs[i - 1] } else { ' ' };
+        if c.is_ascii_digit() && !(prev.is_alphanumeric() || prev == '_' || prev == '.' || prev == '#') {
+            let mut j = i;
+            while j < cs.len() && cs[j].is_ascii_digit() {
+                j += 1;
+            }
+            let next = if j < cs.len() { cs[j] } else { ' ' };
+            let text: String = cs[i..j].iter().collect();
+            if next == '.' || next == 'e' || next == 'x' || next == 'b' || next == '_' || next.is_alphabetic() || text.len() > 12 {
+                out.push_str(&text);
+            } else {
+                out.push_str(&(text.parse::<u64>().unwrap_or(0) + 1).to_string());
+            }
+            i = j;
+            continue;
+        }
+        out.push(c);
+        i += 1;
+    }
     out
 }
 
@@ -355,7 +405,9 @@ pub fn run(ctx: &Ctx, sink: &mut Sink) {
         for twin in 0..3 {
             // unrelated evaluation in between (shares process-wide statics, fresh hash seeds)
             let mut r2 = Rng::derive(ctx.seed ^ 0x55, "c02-other", i * 4 + twin);
-            let other = print_program(&gen_prog(&mut r2), Mode::Min);
+            // twin 1: the in-between program is this very program with every integer literal changed - same shape, same heap
+            // slots, other data (what a cache keyed by position rather than by value would confuse)
+            let other = if twin == 1 { perturb_integers(&src) } else { print_program(&gen_prog(&mut r2), Mode::Min) };
             let _ = run_once(&other, &[], false);
             let Some(again) = run_once(&src, &[], false) else { continue };
             if again.per_stmt.len() != first.per_stmt.len() {
